@@ -5,6 +5,41 @@ import concurrent.futures as cf
 from lib import vlib
 
 
+def conformance(ctx, scen):
+    """Hook-level conformance: the merged log of test actions and internal events of every scenario
+    must be a behaviour of spec/ConnImpl.tla (spec/ConnImplTrace.tla). A rejection is model drift:
+    reported in the evidence, not a verdict (the property is judged on observations)."""
+    import re
+    drift = []
+    todo = list(scen)
+    states = 0
+    for _ in range(6):
+        if not todo:
+            break
+        tl, starts = [], []
+        for l in todo:
+            starts.append(len(tl) + 1)
+            tl.append(dict(ev="reset", k="", how="", gone=False))
+            tl += [dict(ev=e["ev"], k=e["k"], how=e["how"], gone=e["gone"]) for e in l["events"]]
+        d = ctx.scratch.specdir("conf%d" % len(drift))
+        vlib.write_ndjson(os.path.join(d, "trace.ndjson"), tl)
+        r = vlib.run_tlc(d, "ConnImplTrace", "ConnImplTrace.cfg", workers=1, heap_mb=3000, timeout=900)
+        states += r["distinct"]
+        if r["violated"] == "NotDone":
+            todo = []
+            break          # every line consumed: accepted
+        m = re.search(r'"HIGHWATER",\s*(\d+)', r["out"])
+        if r["error"] or not m:
+            return dict(status="inconclusive", detail=(r["error"] or "")[:200])
+        hw = int(m.group(1))
+        k = max(i for i, s0 in enumerate(starts) if s0 <= max(hw, 1))
+        drift.append(dict(sched=todo[k]["sched"], via=todo[k]["via"], stuck_at=tl[hw - 1] if 0 < hw <= len(tl) else None, stuck_index=hw - starts[k],
+                          events=[e["ev"] + (":" + (e["k"] or e["how"]) if (e["k"] or e["how"]) else "") for e in todo[k]["events"]]))
+        todo = todo[:k] + todo[k + 1:]
+    ctx.log("impl conformance: %d scenarios replayed against ConnImpl (%d TLC states), %d drifted" % (len(scen), states, len(drift)))
+    return dict(status="conforms" if not drift else "drift", scenarios=len(scen), tlc_states=states, drift=drift[:5])
+
+
 def run(ctx):
     quick = ctx.tier == "quick"
     r1 = vlib.tlc_check(ctx.scratch, "ConnImpl", "ConnImpl_r1.cfg", workers=8)
@@ -32,7 +67,8 @@ def run(ctx):
     with cf.ThreadPoolExecutor(nproc) as ex:
         for ls in ex.map(one, range(nproc)):
             lines += ls
-    bad, st = vlib.tlc_validate(ctx.scratch, "ConnTrace", "ConnTrace.cfg", lines, timeout=1800)
+    bad, st = vlib.tlc_validate(ctx.scratch, "ConnTrace", "ConnTrace.cfg", [dict(l, events=[]) for l in lines], timeout=1800)
+    conf = conformance(ctx, [l for l in lines if l.get("conform") and l["via"] != "client+watchdog"])
     ctx.log("R2: %d schedules; R3: %d scenarios on real connections (12 harness processes), %d rejected" % (len(cases), len(lines), len(bad)))
     # any failing scenario is re-run alone (fresh process) before it is reported
     if bad and not ctx.replay:
@@ -67,7 +103,7 @@ def run(ctx):
                     "then one terminator {undecodable, undecodable + trailing fragment, peer EOF, read error, local Close} then up to two late requests (spec/ConnGen.tla); each replayed on diam.NewConn / an accepted server connection "
                     "over memnet, stepping on quiescence; plus sm.Client with watchdog terminated in four ways. every schedule has a request and a termination (non-trivial); distinct by (path, schedule)",
                samples=[dict(via=l["via"], sched=l["sched"], steps=l["steps"], goroutines=l["goroutines"]) for l in lines[10:len(lines):max(1, len(lines) // 3)]][:3],
-               exhaustive=True, r1_states=r1["distinct"], rejected=len(bad), known_finding_hits={k: n for k, (n, _) in v.hits.items()})
+               exhaustive=True, r1_states=r1["distinct"], rejected=len(bad), impl_conformance=conf, known_finding_hits={k: n for k, (n, _) in v.hits.items()})
     rc = v.finish()
     vlib.write_evidence("C14", ctx.tier, ctx.seed, cov, ctx.wall(), v.nviol,
                         ["'never closes' is decided after a 600 ms positive deadline once the transport is closed; a failing scenario is re-run alone in a fresh process before it is reported",
